@@ -1439,7 +1439,7 @@ def phase_deadline(ctx, frac):
     under machine load the streams shrink (recorded via ctx.skip), they never turn into a verdict."""
     import time
     st = ctx.__dict__.setdefault("_c08_phase0", time.time())
-    avail = max(25.0, ctx.budget - (st - ctx.t0) - 4.0)
+    avail = max(25.0, ctx.budget - (st - ctx.t_run0) - 4.0)
     return st + avail * frac
 
 
